@@ -194,6 +194,26 @@ func lazyCases() []*ProgCase {
 			}
 		}
 	}
+	// overload sets whose members differ in evaluation strategy
+	{
+		n := func(i int) *ref.E { return ref.Num(fmt.Sprint(i), float64(i)) }
+		xs := func() *ref.E { return ref.Ident("xs") }
+		mixed := []*ref.E{
+			ref.Call("sel", tr("c", ref.Bool(true)), tr("x", n(1))),
+			ref.Call("sel", tr("l", xs()), tr("x", n(2))),
+			ref.Call("sel", ref.List(tr("e", n(3))), tr("x", n(4))),
+			ref.Call("sel2", tr("n", n(5)), tr("x", n(6))),
+			ref.Call("sel2", tr("l", xs()), tr("x", n(7))),
+			ref.Call("sel2", ref.List(poisonNum("DEAD-l")), tr("x", n(8))),
+			ref.CallF(ref.FInfix, "+", ref.Call("sel", tr("c", ref.Bool(false)), tr("x", n(1))), ref.Call("sel", tr("l", xs()), tr("y", n(2)))),
+			ref.CallF(ref.FInfix, "+", ref.Call("sel2", tr("l", xs()), tr("x", n(1))), ref.Call("sel2", tr("n", n(0)), tr("y", n(2)))),
+			ref.Call("sel", tr("c", ref.Bool(true)), ref.Call("sel", tr("l", xs()), ref.Call("sel2", tr("l2", xs()), tr("x", n(9))))),
+			ref.Call("lzIf", ref.Call("sel", xs(), tr("c", ref.Bool(true))), ref.Call("sel2", xs(), tr("t", n(1))), poisonNum("DEAD-else")),
+		}
+		for i, e := range mixed {
+			add(fmt.Sprintf("mixed-strategy/%d", i), e)
+		}
+	}
 	// depth 3 (user lazy functions only: nested deferred code on the VM)
 	userForms := []lazyForm{}
 	for _, f := range forms {
